@@ -1,5 +1,6 @@
 //! Correspondence harness: runs the real feoxdb code on generated cases and writes
 //! (a) the case lines for `modelrun` and (b) the implementation's canonical results.
+mod abuf;
 mod cachem;
 mod codec;
 mod conc;
@@ -39,6 +40,7 @@ fn main() {
         "scan" => race::run_scan(&opts),
         "sweep" => race::run_sweep(&opts),
         "sweepsched" => sweepsched::run(&opts),
+        "abuf" => abuf::run(&opts),
         "scansched" => scansched::run(&opts),
         "scanschedchild" => scansched::child(&opts),
         "sweepschedchild" => sweepsched::child(&opts),
